@@ -145,7 +145,7 @@ func NewFunc(f interface{}, opts ...Arg) (*Func, error) {
 		fn:       fv,
 		input:    inTyp,
 		output:   outTyp,
-		callOpts: opts,
+		callOpts: append([]Arg(nil), opts...), // the caller is free to reuse its slice
 		name:     args.funcName,
 		once:     args.funcOnce,
 		onceMu:   new(sync.Mutex),
